@@ -20,13 +20,13 @@ from .c09 import table
 
 
 def digest_descriptor(it_repo: Repo, events: List[Any], curve: bytes, msg_name: str) -> str:
-    """How the message reaches the signature primitive."""
+    """How the (normalised) message reaches the signature primitive.  msg_name is the rendering of the message term looked for."""
     for e in events:
         if not (isinstance(e, tuple) and e[0] == 'ext'):
             continue
         name, args, kwargs = e[1], e[2], e[3]
         vals = list(args) + list(kwargs.values())
-        if name == 'pysodium.crypto_generichash' and any(vrepr(a) == f'${msg_name}' for a in vals):
+        if name == 'pysodium.crypto_generichash' and any(vrepr(a) == msg_name for a in vals):
             if len(vals) == 1:
                 return 'blake2b-256'
             return f'generichash{[vrepr(v) for v in vals[1:]]}'
@@ -35,7 +35,7 @@ def digest_descriptor(it_repo: Repo, events: List[Any], curve: bytes, msg_name: 
             continue
         name, args, kwargs = e[1], e[2], e[3]
         vals = list(args) + list(kwargs.values())
-        if not any(vrepr(a) == f'${msg_name}' for a in vals):
+        if not any(vrepr(a) == msg_name for a in vals):
             continue
         h = kwargs.get('hasher', kwargs.get('hashfunc'))
         if h is None:
@@ -110,12 +110,20 @@ def run(repo: Repo, chk: Check) -> None:
     chk.set_clause('C07.2')
     ref_digest = {b'ed': 'blake2b-256', b'sp': 'blake2b-256', b'p2': 'blake2b-256', b'BL': 'identity'}
     for curve in CURVES:
+        # the message reaching the primitive must be the normalised one (scrub_input: str / hex / bytes), never the caller's raw argument
         hs = KeyHooks(repo)
+        hs.scrub_marks = True
         rs = Interp(repo, hs, max_depth=2).run_method(sign, lambda c=curve: (key_obj(c), [Sym('message', 'bytes')], {}))
-        ds = {digest_descriptor(repo, p.events, curve, 'message') for p in rs if p.outcome == 'return'}
-        rv = Interp(repo, KeyHooks(repo), max_depth=2).run_method(
+        ds = {digest_descriptor(repo, p.events, curve, 'scrub($message)') for p in rs if p.outcome == 'return'}
+        hv = KeyHooks(repo)
+        hv.scrub_marks = True
+        rv = Interp(repo, hv, max_depth=2).run_method(
             verify, lambda c=curve: (key_obj(c), [Sym('signature', 'bytes'), Sym('message', 'bytes')], {}))
-        dv = {digest_descriptor(repo, p.events, curve, 'message') for p in rv if p.outcome == 'return'}
+        dv = {digest_descriptor(repo, p.events, curve, 'scrub($message)') for p in rv if p.outcome == 'return'}
+        raw = sorted({e[1] for p in list(rs) + list(rv) for e in p.events if isinstance(e, tuple) and e[0] == 'ext'
+                      and any(vrepr(a) == '$message' for a in list(e[2]) + list(e[3].values()))})
+        chk.ob('R-FLOW', f'{KEY}.sign', not raw, f'{curve.decode()}: no primitive receives the un-normalised message argument', sign.loc, {'calls': raw},
+               what=f'{curve.decode()}: {raw} receive the caller\'s raw `message` instead of the scrub_input result: a str / hex message is signed or verified as different bytes')
         chk.ob('R-PAIR', f'{KEY}.sign', ds == {ref_digest[curve]}, f'{curve.decode()}: message digest for signing', sign.loc,
                {'found': sorted(ds), 'reference': ref_digest[curve]}, what=f'{curve.decode()} signs {sorted(ds)} of the message, Tezos signs {ref_digest[curve]}')
         chk.ob('R-PAIR', f'{KEY}.verify', dv == ds and bool(dv), f'{curve.decode()}: verify uses the digest sign uses', verify.loc,
